@@ -1517,11 +1517,14 @@ def create_pipes(net, from_junctions, to_junctions, std_type, length_km,
 
     if isinstance(std_type, Iterable) and not isinstance(std_type, str):
         pipe_parameters = {"inner_diameter_mm": [], "outer_diameter_mm": [], "k_mm": [], "u_w_per_m2k": []}
+        # values given by the caller apply to every pipe, not only to the first one
+        overrides = {key: kwargs.pop(key) for key in ("alpha_w_per_m2k", "u_w_per_m2k", "k_mm")
+                     if key in kwargs}
         for s in std_type:
             _check_std_type(net, s, "pipe", "create_pipes")
             params = retrieve_u(load_std_type(net, s, "pipe"))
-            u = _deprecation_check_u(kwargs)
-            k = _deprecation_check_k(kwargs, params)
+            u = _deprecation_check_u(dict(overrides))
+            k = _deprecation_check_k(dict(overrides), params)
             pipe_parameters["u_w_per_m2k"] += [u if u is not None else params["u_w_per_m2k"]]
             pipe_parameters["k_mm"] += [k if k is not None else params["k_mm"]]
             pipe_parameters["inner_diameter_mm"] += [params["inner_diameter_mm"]]
